@@ -17,6 +17,8 @@ use std::sync::Mutex;
 pub enum Proj {
     /// C01: (rule, lexeme span) sequence and error/none kinds
     Tokens,
+    /// C06 (with Locs): rule and byte span of every token, and the exact location of every error
+    Spans,
     /// C03: ids of the rules that fired, per call
     RuleIds,
     /// C04/C05/C10: the whole trace (events with spans, text, peek; items; probes)
@@ -99,7 +101,7 @@ fn hash_trace(t: &Trace) -> u64 {
 }
 
 fn menu_for(spec: &Spec) -> Vec<u8> {
-    let mut menu = vec![D_RETURN, D_CONTINUE, D_RESET_CONTINUE];
+    let mut menu = vec![D_RETURN, D_CONTINUE, D_RESET_CONTINUE, D_RESET_RETURN];
     if spec.is_named() {
         for k in 0..spec.sets.len() {
             menu.push(d_switch(k));
@@ -321,9 +323,12 @@ fn compare(proj: Proj, spec: &Spec, input: &str, script: &[u8], has_str: bool, t
                     return mism(what);
                 }
             }
-            Proj::Tokens => {
+            Proj::Tokens | Proj::Spans => {
+                let with_err_loc = proj == Proj::Spans;
                 let key = |s: &Step| match &s.item {
                     Item::Tok(a, r, b) => format!("tok {r} {}..{}", a.byte_idx, b.byte_idx),
+                    Item::Invalid(l) if with_err_loc => format!("invalid at {l:?}"),
+                    Item::Custom(e, l) if with_err_loc => format!("custom {e} at {l:?}"),
                     Item::Invalid(_) => "invalid".into(),
                     Item::Custom(e, _) => format!("custom {e}"),
                     Item::None => "none".into(),
@@ -470,7 +475,8 @@ impl Explorer<'_, '_> {
     fn execute(&mut self, input: &str, script: &[u8]) -> usize {
         let plan = self.plan;
         let ctor0 = plan.ctors[0];
-        let has_str = |c: u8| c == CTOR_NEW_WITH_STATE || c == CTOR_NEW;
+        // `match_()` text is not recorded for long inputs (see RunArgs::no_text)
+        let has_str = |c: u8| (c == CTOR_NEW_WITH_STATE || c == CTOR_NEW) && input.len() <= 64;
         let t = self.run_one(input, script, ctor0);
         let n_actions: usize = t.iter().map(|s| s.events.len()).sum();
         // determinism: same input, same script => same trace
@@ -478,7 +484,7 @@ impl Explorer<'_, '_> {
             Proj::Locs => {
                 if let Some(v) = check_locs(input, &t) {
                     self.viol(input, script, ctor0, v);
-                } else if let Some(v) = compare(Proj::Tokens, self.l.spec, input, script, has_str(ctor0), &t, &mut self.c) {
+                } else if let Some(v) = compare(Proj::Spans, self.l.spec, input, script, has_str(ctor0), &t, &mut self.c) {
                     // "input[start..end] is exactly the matched lexeme": spans against the reference
                     self.viol(input, script, ctor0, v);
                 }
@@ -521,7 +527,7 @@ impl Explorer<'_, '_> {
                     out
                 };
                 let whole = cut(&t);
-                let args = RunArgs { input, script, ctor: ctor0, probes: true, nones: 2, no_text: false, split: 0 };
+                let args = RunArgs { input, script, ctor: ctor0, probes: true, nones: 2, no_text: input.len() > 64, split: 0 };
                 // two runs of the same lexer on the same input give the same result — also when
                 // the second run starts from a fresh thread (no state left behind by earlier runs of
                 // this or other lexers can matter)
@@ -532,7 +538,7 @@ impl Explorer<'_, '_> {
                 let runner = self.l.runner;
                 let (i2, s2) = (input.to_string(), script.to_vec());
                 let t_fresh = std::thread::spawn(move || {
-                    let args = RunArgs { input: &i2, script: &s2, ctor: ctor0, probes: true, nones: 3, no_text: false, split: 0 };
+                    let args = RunArgs { input: &i2, script: &s2, ctor: ctor0, probes: true, nones: 3, no_text: i2.len() > 64, split: 0 };
                     runner(&args, &Mode::Plain).0
                 })
                 .join();
@@ -601,7 +607,8 @@ impl Explorer<'_, '_> {
             }
         }
         // end of input is acted upon once: a non-fused iterator that goes on after its first `None`
-        if plan.pieces && script.is_empty() && input.len() <= 64 {
+        let eoi_then_ctx = self.l.spec.sets.iter().flat_map(|s| &s.rules).any(|r| r.ctx.is_some() && r.re.has_eoi());
+        if plan.pieces && script.is_empty() && input.len() <= 64 && !eoi_then_ctx {
             let n = input.chars().count();
             for split in 0..n {
                 let args = RunArgs { input, script, ctor: CTOR_PIECES, probes: false, nones: 3, no_text: false, split };
